@@ -11,6 +11,7 @@ package props
 import (
 	"encoding/json"
 	"fmt"
+	"time"
 
 	"github.com/cosmos72/gomacro/go/types"
 	"github.com/cosmos72/gomacro/go/typeutil"
@@ -304,12 +305,13 @@ func c28Hashes(c *core.Ctx, k *c28Checker) {
 
 func c28Run(c *core.Ctx) {
 	c.Rule("universe = every type term of c28_types.go (basic int/string/bool/byte-alias/uint8, named a/p.A (two *Named objects of one declaration), b/p.A, named interfaces a/p.I, b/p.I, a/p.K; " +
-		"closed under pointer, slice, array[1|2], chan x3, map, func (0-2 params/results, variadic and its []T twin, 3 receivers), struct (0-2 fields, exported/unexported names of two same-named packages, embedded, tags), " +
-		"interface (0-2 methods with fresh or shared *Func objects, 0-2 embedded named interfaces) to depth 2, thorough: depth 3 over a reduced base), each built twice as disjoint object graphs; " +
+		"closed under pointer, slice, array[1|2], chan x3, map, func (0-2 params/results, variadic and its []T twin, 3 receivers), struct (0-2 fields, exported/unexported names whose package is one of " +
+		"{a/p, b/p (same package name), nil (no package), a second *Package object of path a/p}, embedded fields of exported and of unexported named types with the same package choices, tags), " +
+		"interface (0-2 methods with fresh or shared *Func objects, method names with the same four package choices, 0-2 embedded named interfaces) to depth 2, thorough: depth 3 over a reduced base), each built twice as disjoint object graphs; " +
 		"ALL ordered pairs checked (panic, reflexive, symmetric, reference, hash, ignore-tags) and all triples with true premises; " +
-		"map: explicit-state BFS (state = sorted association list) over all sequences of length <= 5 of 43 operations {Set k v (2 values), At k, Delete k, Delete-k-inside-Iterate, Len, Iterate, Keys/Values} on 8 keys " +
-		"(two identical-but-distinct slice objects, byte/uint8, two hash-colliding non-identical structs, two hash-colliding non-identical interfaces), full observation after every step, " +
-		"plus ALL un-merged sequences of length <= 4 (thorough: 5) with a shared hasher (tests the state abstraction: holes left by Delete are hidden state). non-trivial = distinct unordered pairs of distinct objects that are identical (I), or non-identical with equal hash (H), or identical only when tags are ignored (T), " +
+		"map: explicit-state BFS (state = sorted association list) over all sequences of length <= 5 of 53 operations {Set k v (2 values), At k, Delete k, Delete-k-inside-Iterate, Len, Iterate, Keys/Values} on 10 keys " +
+		"(two identical-but-distinct slice objects, byte/uint8, three hash-colliding pairwise non-identical structs {a int} of package a/p, b/p and of no package, three such interfaces {m()}), full observation after every step, " +
+		"plus ALL un-merged sequences of length <= 4 (thorough: also length 5 over the first 8 keys, and over the two slices + the three colliding structs) with a shared hasher (tests the state abstraction: holes left by Delete are hidden state). non-trivial = distinct unordered pairs of distinct objects that are identical (I), or non-identical with equal hash (H), or identical only when tags are ignored (T), " +
 		"plus distinct (map state, operation) transitions")
 	c.Assume("identity is specified by the documented definition in go/typeutil/predicates.go: spec identity, receivers take part in signature identity, interfaces compare explicit methods and embedded named interfaces in (sorted) order",
 		"interfaces are Complete()d and embed only named interfaces, as the package requires")
@@ -320,6 +322,8 @@ func c28Run(c *core.Ctx) {
 	c.Set("pairs_ordered", int64(len(u))*int64(len(u)))
 	c28Hashes(c, k)
 	var rowS, colS []int
+	t0 := time.Now()
+	defer func() { c.Count("ms_map", int(time.Since(t0)/time.Millisecond)) }() // reporting only (summed over the workers)
 	for i := range u {
 		if !c.Mine(i) {
 			continue
@@ -333,6 +337,8 @@ func c28Run(c *core.Ctx) {
 		}
 		k.triples(i, rowS, colS)
 	}
+	c.Count("ms_pairs", int(time.Since(t0)/time.Millisecond))
+	t0 = time.Now()
 	c28MapCheck(c)
 }
 
